@@ -402,6 +402,15 @@ func (g *Gen) evalQuant(env *Env, x *EQuant) Val {
 	if len(guards) > 0 {
 		s = fmt.Sprintf("(%s (and %s true) %s)", conn, strings.Join(guards, " "), s)
 	}
+	if len(x.Pats) > 0 {
+		var ps []string
+		g.inQuant++
+		for _, pe := range x.Pats {
+			ps = append(ps, g.eval(&n, pe).S)
+		}
+		g.inQuant--
+		s = fmt.Sprintf("(! %s :pattern (%s))", s, strings.Join(ps, " "))
+	}
 	return Val{T: types.Typ[types.Bool], S: fmt.Sprintf("(%s (%s) %s)", q, strings.Join(binders, " "), s)}
 }
 
